@@ -3,7 +3,7 @@
 From Coq Require Import ZArith NArith List Bool Arith Lia.
 From PM Require Import Model.Data Model.Mark Model.Tree Spec.Tokens Proofs.DataProofs Proofs.NodeInd
   Proofs.ReplaceValid Proofs.SliceSides Proofs.TokenBasics Proofs.PathTokens Proofs.ReplaceTokens Proofs.SliceShape
-  Proofs.TokenInj.
+  Proofs.TokenInj Proofs.SliceTokens.
 Import ListNotations.
 Local Open Scope nat_scope.
 
@@ -68,17 +68,9 @@ Proof. induction n as [|n IH]; intros l H; [exact H|]. destruct l as [|x l]; [ex
 (* ------------------------------------------------------------------ add_node keeps the normal form *)
 Lemma add_node_cons c x y r : add_node c (x :: y :: r) = x :: add_node c (y :: r).
 Proof.
-  unfold add_node. destruct c as [t m|? ? ? ?]; [|reflexivity].
-  assert (Hrev : forall z, rev (x :: y :: r) = z :: tl (rev (x :: y :: r)) -> rev (y :: r) = z :: tl (rev (y :: r))).
-  { intros z. cbn [rev]. destruct (rev r ++ [y]) as [|w rest] eqn:E; [destruct (rev r); discriminate|].
-    cbn [app tl]. intros H. inversion H. reflexivity. }
-  assert (Hhd : hd_error (rev (x :: y :: r)) = hd_error (rev (y :: r))).
-  { cbn [rev]. destruct (rev r ++ [y]) as [|w rest] eqn:E; [destruct (rev r); discriminate|]. reflexivity. }
-  destruct (rev (x :: y :: r)) as [|z1 rest1] eqn:E1; [destruct (rev r ++ [y]); discriminate|].
-  destruct (rev (y :: r)) as [|z2 rest2] eqn:E2; [cbn [rev] in E2; destruct (rev r); discriminate|].
-  cbn [hd_error] in Hhd. inversion Hhd; subst z2.
-  destruct z1 as [t' m'|? ? ? ?]; [|reflexivity]. destruct (marks_eqb m m'); [|reflexivity].
-  cbn [removelast app]. reflexivity.
+  unfold add_node. destruct c as [t m|? ? ? ?]; [|reflexivity]. cbn [rev].
+  destruct (rev r ++ [y]) as [|z rest] eqn:E; [destruct (rev r); discriminate|]. cbn [app].
+  destruct z as [t' m'|? ? ? ?]; [|reflexivity]. destruct (marks_eqb m m'); reflexivity.
 Qed.
 
 Lemma text_nonempty_app (t t' : cps) : t <> [] -> t' ++ t <> [].
@@ -121,6 +113,503 @@ Proof.
   induction l as [|c r IH]; intros target Hl Ht; [exact Ht|]. cbn [add_all]. apply IH.
   - intros x Hx. apply Hl. right. exact Hx.
   - apply add_node_CL; [apply Hl; left; reflexivity|exact Ht].
+Qed.
+
+(* ------------------------------------------------------------------ nodes along resolved paths *)
+Definition PathC (r : rpos) : Prop := forall n i o, In (n, i, o) (rp_path r) -> CN n.
+(* every node on the path is an element node that is not a leaf (the root too) *)
+Definition PathNL (r : rpos) : Prop := forall d x, rp_node r d = Ok x -> is_elem x /\ nonleaf s x.
+
+Lemma In_firstn_skipn {A} (c : A) k a l : In c (firstn k (skipn a l)) -> In c l.
+Proof.
+  intros H. assert (H1 : In c (skipn a l)).
+  { rewrite <- (firstn_skipn k (skipn a l)). apply in_or_app. left. exact H. }
+  rewrite <- (firstn_skipn a l). apply in_or_app. right. exact H1.
+Qed.
+
+Lemma IsPath_CN n p : IsPath s n p -> CN n -> forall x i o, In (x, i, o) p -> CN x.
+Proof.
+  intros H. induction H as [n i o|n i o c rest Hc Hnl Hel Hr IH]; intros Hn x i' o' Hin.
+  - destruct Hin as [E|[]]. inversion E; subst. exact Hn.
+  - destruct Hin as [E|Hin]; [inversion E; subst; exact Hn|].
+    assert (Hcc : CN c).
+    { destruct n as [t m|ty a m cs]; [destruct i; discriminate|].
+      eapply CL_In; [eapply CN_children; exact Hn|]. unfold child_at in Hc. eapply nth_error_In. exact Hc. }
+    apply (IH Hcc x i' o' Hin).
+Qed.
+
+Lemma resolve_PathC doc pos r : CN doc -> resolve s doc pos = Ok r -> PathC r.
+Proof.
+  unfold resolve. destruct (fsize (node_content doc) <? pos); [discriminate|].
+  destruct (resolve_in s doc pos 0) as [[p po]|] eqn:E; [|discriminate]. cbn [bind fst snd]. intros Hd H. inversion H; subst r.
+  intros n i o Hin. cbn [rp_path] in Hin. eapply IsPath_CN; [eapply resolve_in_IsPath; exact E|exact Hd|exact Hin].
+Qed.
+
+Lemma PathC_node r d n : PathC r -> rp_node r d = Ok n -> CN n.
+Proof.
+  intros H Hn. destruct (rp_node_path _ _ _ Hn) as (i & o & Hp). unfold path_at in Hp. apply nth_error_In in Hp. eapply H; eauto.
+Qed.
+Lemma PathC_child r d n i o j c : PathC r -> path_at r d = Some (n, i, o) -> child_at n j = Some c -> CN c.
+Proof.
+  intros H Hp Hc. unfold path_at in Hp. apply nth_error_In in Hp. specialize (H _ _ _ Hp).
+  destruct n as [t m|ty a m cs]; [destruct j; discriminate|].
+  eapply CL_In; [eapply CN_children; exact H|]. unfold child_at in Hc. eapply nth_error_In; exact Hc.
+Qed.
+
+Lemma text_cut_CN t m a b n : text_cut t m a b = Ok n -> CN (Text t m) -> CN n.
+Proof.
+  unfold text_cut. destruct ((a =? 0) && (b =? text_length t)); [intros H; inversion H; auto|].
+  destruct (cut_text t a b) as [x|]; [|discriminate]. cbn [bind]. destruct x as [|c x]; [discriminate|].
+  intros H _. inversion H. reflexivity.
+Qed.
+
+Lemma rp_node_after_CN r x :
+  rp_node_after s r = Ok (Some x) -> PathC r -> TextAt r -> CN x.
+Proof.
+  unfold rp_node_after, rp_parent. intros H Hp Ht.
+  destruct (rp_node r (rp_depth r)) as [parent|] eqn:En; [|discriminate]. cbn [bind] in H.
+  destruct (rp_index r (rp_depth r)) as [index|] eqn:Ei; [|discriminate]. cbn [bind] in H.
+  destruct (rp_node_path _ _ _ En) as (i0 & o0 & Hpa). destruct (rp_index_path _ _ _ Ei) as (n1 & o1 & Hp1).
+  rewrite Hpa in Hp1. inversion Hp1; subst n1 i0 o1. clear Hp1.
+  destruct (child_at parent index) as [child|] eqn:Ec.
+  - assert (Hcc : CN child) by (eapply PathC_child; eauto).
+    destruct (rp_text_offset r =? 0) eqn:Ez; [inversion H; subst; exact Hcc|]. apply Nat.eqb_neq in Ez.
+    destruct (Ht Ez) as (n2 & i2 & o2 & t & m & Hp2 & Hc2).
+    rewrite Hpa in Hp2. inversion Hp2; subst n2 i2 o2. rewrite Ec in Hc2. inversion Hc2; subst child.
+    destruct (text_cut t m (rp_text_offset r) (text_length t)) as [c|] eqn:Et; [|discriminate].
+    cbn [bind] in H. inversion H; subst. eapply text_cut_CN; eauto.
+  - destruct (index =? length (node_content parent)); discriminate.
+Qed.
+
+Lemma rp_node_before_CN r x :
+  rp_node_before s r = Ok (Some x) -> rp_text_offset r <> 0 -> PathC r -> TextAt r -> CN x.
+Proof.
+  unfold rp_node_before, rp_parent. intros H Ez Hp Ht.
+  destruct (rp_node r (rp_depth r)) as [parent|] eqn:En; [|discriminate]. cbn [bind] in H.
+  destruct (rp_index r (rp_depth r)) as [index|] eqn:Ei; [|discriminate]. cbn [bind] in H.
+  destruct (rp_node_path _ _ _ En) as (i0 & o0 & Hpa). destruct (rp_index_path _ _ _ Ei) as (n1 & o1 & Hp1).
+  rewrite Hpa in Hp1. inversion Hp1; subst n1 i0 o1. clear Hp1.
+  destruct (rp_text_offset r =? 0) eqn:Ez'; [apply Nat.eqb_eq in Ez'; contradiction|]. cbn [negb] in H.
+  destruct (Ht Ez) as (n2 & i2 & o2 & t & m & Hp2 & Hc2).
+  rewrite Hpa in Hp2. inversion Hp2; subst n2 i2 o2. rewrite Hc2 in H.
+  assert (Hcc : CN (Text t m)) by (eapply PathC_child; eauto).
+  destruct (text_cut t m 0 (rp_text_offset r)) as [c|] eqn:Et; [|discriminate].
+  cbn [bind] in H. inversion H; subst. eapply text_cut_CN; eauto.
+Qed.
+
+(* ------------------------------------------------------------------ add_range *)
+Lemma add_range_CL start end_ depth target l :
+  add_range s start end_ depth target = Ok l -> CL target ->
+  (forall sp, start = Some sp -> PathC sp /\ TextAt sp) ->
+  (forall e, end_ = Some e -> PathC e /\ TextAt e) ->
+  CL l.
+Proof.
+  unfold add_range. intros H Ht Hs He.
+  destruct (match end_ with Some e => rp_node e depth | None => match start with Some st => rp_node st depth | None => Err ErrInternal end end)
+    as [n|] eqn:En; [|discriminate]. cbn [bind] in H.
+  destruct (match end_ with Some e => rp_index e depth | None => Ok (length (node_content n)) end) as [end_index|] eqn:Eei;
+    [|discriminate]. cbn [bind] in H.
+  assert (Hn : CN n).
+  { destruct end_ as [e|]; [eapply PathC_node; [apply (He e eq_refl)|exact En]|].
+    destruct start as [sp|]; [eapply PathC_node; [apply (Hs sp eq_refl)|exact En]|discriminate]. }
+  assert (Hkids : forall c, In c (node_content n) -> CN c).
+  { intros c Hc. destruct n as [t m|ty a m cs]; [destruct Hc|]. eapply CL_In; [eapply CN_children; exact Hn|exact Hc]. }
+  destruct (match start with
+            | None => Ok (0, target)
+            | Some sp => do si <- rp_index sp depth;
+                         if depth <? rp_depth sp then Ok (S si, target)
+                         else if negb (rp_text_offset sp =? 0)
+                              then do na <- rp_node_after s sp;
+                                   match na with Some x => Ok (S si, add_node x target) | None => Err ErrInternal end
+                              else Ok (si, target)
+            end) as [[start_index target1]|] eqn:Est; [|discriminate]. cbn [bind] in H.
+  assert (Ht1 : CL target1).
+  { destruct start as [sp|]; [|inversion Est; subst; auto].
+    destruct (rp_index sp depth) as [si|]; [|discriminate]. cbn [bind] in Est.
+    destruct (depth <? rp_depth sp); [inversion Est; subst; auto|].
+    destruct (rp_text_offset sp =? 0) eqn:Ez; cbn [negb] in Est; [inversion Est; subst; auto|].
+    destruct (rp_node_after s sp) as [[x|]|] eqn:Ena; try discriminate. cbn [bind] in Est. inversion Est; subst.
+    destruct (Hs sp eq_refl) as [Hp Hta]. apply add_node_CL; auto. eapply rp_node_after_CN; eauto. }
+  destruct (length (node_content n) <? end_index); [discriminate|]. cbn [bind] in H.
+  assert (Hall : CL (add_all (firstn (end_index - start_index) (skipn start_index (node_content n))) target1)).
+  { apply add_all_CL; [|exact Ht1]. intros x Hx. apply Hkids. eapply In_firstn_skipn; exact Hx. }
+  destruct end_ as [e|]; [|inversion H; subst; exact Hall].
+  destruct (rp_depth e =? depth); cbn [andb] in H; [|inversion H; subst; exact Hall].
+  destruct (rp_text_offset e =? 0) eqn:Ez; cbn [negb] in H; [inversion H; subst; exact Hall|].
+  apply Nat.eqb_neq in Ez.
+  destruct (rp_node_before s e) as [[x|]|] eqn:Enb; try discriminate. cbn [bind] in H. inversion H; subst.
+  destruct (He e eq_refl) as [Hp Hte]. apply add_node_CL; auto. eapply rp_node_before_CN; eauto.
+Qed.
+
+(* ------------------------------------------------------------------ the recursive rebuilds *)
+Lemma close_CN n content r :
+  close s n content = Ok r -> is_elem n -> nonleaf s n -> CL content -> CN r /\ is_elem r.
+Proof.
+  intros H (ty & a & m & cs & ->) Hnl Hc. apply close_copy in H. subst r. cbn [node_copy].
+  split; [apply CN_elem; [exact Hnl|exact Hc]|unfold is_elem; eauto].
+Qed.
+
+Lemma joinable_NL before after depth n : joinable s before after depth = Ok n -> PathNL before -> is_elem n /\ nonleaf s n.
+Proof. intros H Hp. destruct (joinable_node s _ _ _ _ H) as (Hn & _). apply (Hp _ _ Hn). Qed.
+
+Lemma two_way_CL : forall fuel from to depth l,
+  replace_two_way s fuel from to depth = Ok l ->
+  PathC from -> TextAt from -> PathNL from -> PathC to -> TextAt to -> CL l.
+Proof.
+  induction fuel as [|fuel IH]; intros from to depth l H Hcf Htf Hnf Hct Htt; [discriminate|].
+  cbn [replace_two_way] in H.
+  destruct (add_range s None (Some from) depth []) as [c1|] eqn:E1; [|discriminate]. cbn [bind] in H.
+  assert (Hc1 : CL c1).
+  { eapply add_range_CL; [exact E1|exact CL_nil|intros sp Hsp; discriminate|]. intros e He; inversion He; subst; auto. }
+  destruct (if depth <? rp_depth from
+            then do ty <- joinable s from to (S depth);
+                 do inner <- replace_two_way s fuel from to (S depth);
+                 do cl <- close s ty inner; Ok (add_node cl c1)
+            else Ok c1) as [c2|] eqn:E2; [|discriminate]. cbn [bind] in H.
+  assert (Hc2 : CL c2).
+  { destruct (depth <? rp_depth from); [|inversion E2; subst; auto].
+    destruct (joinable s from to (S depth)) as [ty|] eqn:Ej; [|discriminate]. cbn [bind] in E2.
+    destruct (replace_two_way s fuel from to (S depth)) as [inner|] eqn:Ei; [|discriminate]. cbn [bind] in E2.
+    destruct (close s ty inner) as [cl|] eqn:Ec; [|discriminate]. cbn [bind] in E2. inversion E2; subst.
+    destruct (joinable_NL _ _ _ _ Ej Hnf) as (Hel & Hnl).
+    apply add_node_CL; auto. eapply close_CN; eauto. }
+  eapply add_range_CL; [exact H|exact Hc2| |intros e He; discriminate].
+  intros sp Hsp; inversion Hsp; subst; auto.
+Qed.
+
+Lemma three_way_CL : forall fuel from start end_ to depth l,
+  replace_three_way s fuel from start end_ to depth = Ok l ->
+  PathC from -> TextAt from -> PathNL from ->
+  PathC start -> TextAt start -> PathNL start ->
+  PathC end_ -> TextAt end_ -> PathNL end_ ->
+  PathC to -> TextAt to -> CL l.
+Proof.
+  induction fuel as [|fuel IH]; intros from start end_ to depth l H Hcf Htf Hnf Hcs Hts Hns Hce Hte Hne Hct Htt; [discriminate|].
+  cbn [replace_three_way] in H.
+  destruct (if depth <? rp_depth from then do n <- joinable s from start (S depth); Ok (Some n) else Ok None) as [open_start|] eqn:Eos;
+    [|discriminate]. cbn [bind] in H.
+  destruct (if depth <? rp_depth to then do n <- joinable s end_ to (S depth); Ok (Some n) else Ok None) as [open_end|] eqn:Eoe;
+    [|discriminate]. cbn [bind] in H.
+  assert (Hos : forall os, open_start = Some os -> is_elem os /\ nonleaf s os).
+  { intros os ->. destruct (depth <? rp_depth from); [|discriminate].
+    destruct (joinable s from start (S depth)) as [n|] eqn:Ej; [|discriminate]. cbn [bind] in Eos. inversion Eos; subst.
+    eapply joinable_NL; eauto. }
+  assert (Hoe : forall oe, open_end = Some oe -> is_elem oe /\ nonleaf s oe).
+  { intros oe ->. destruct (depth <? rp_depth to); [|discriminate].
+    destruct (joinable s end_ to (S depth)) as [n|] eqn:Ej; [|discriminate]. cbn [bind] in Eoe. inversion Eoe; subst.
+    eapply joinable_NL; eauto. }
+  destruct (add_range s None (Some from) depth []) as [c1|] eqn:E1; [|discriminate]. cbn [bind] in H.
+  assert (Hc1 : CL c1).
+  { eapply add_range_CL; [exact E1|exact CL_nil|intros sp Hsp; discriminate|]. intros e He; inversion He; subst; auto. }
+  (* helpers *)
+  assert (Htwo1 : forall inner, replace_two_way s fuel from start (S depth) = Ok inner -> CL inner).
+  { intros inner Hi. eapply two_way_CL; eauto. }
+  assert (Htwo2 : forall inner, replace_two_way s fuel end_ to (S depth) = Ok inner -> CL inner).
+  { intros inner Hi. eapply two_way_CL; eauto. }
+  assert (Hmid : forall tg c', add_range s (Some start) (Some end_) depth tg = Ok c' -> CL tg -> CL c').
+  { intros tg c' Ha Htg. eapply add_range_CL; [exact Ha|exact Htg| |].
+    - intros sp Hsp; inversion Hsp; subst; auto.
+    - intros e He; inversion He; subst; auto. }
+  match type of H with (do c2 <- ?X; _) = _ => destruct X as [c2|] eqn:E2; [|discriminate] end. cbn [bind] in H.
+  assert (Hc2 : CL c2).
+  { destruct open_start as [os|]; destruct open_end as [oe|].
+    - destruct (rp_index start depth) as [si|]; [|discriminate]. cbn [bind] in E2.
+      destruct (rp_index end_ depth) as [ei|]; [|discriminate]. cbn [bind] in E2.
+      destruct (si =? ei).
+      + destruct (check_join s os oe); [|discriminate]. cbn [bind] in E2.
+        destruct (replace_three_way s fuel from start end_ to (S depth)) as [inner|] eqn:Ei; [|discriminate]. cbn [bind] in E2.
+        destruct (close s os inner) as [cl|] eqn:Ec; [|discriminate]. cbn [bind] in E2. inversion E2; subst.
+        destruct (Hos os eq_refl) as (Hel & Hnl).
+        apply add_node_CL; auto. eapply close_CN; eauto.
+      + destruct (replace_two_way s fuel from start (S depth)) as [inner|] eqn:Ei; [|discriminate]. cbn [bind] in E2.
+        destruct (close s os inner) as [cl|] eqn:Ec; [|discriminate]. cbn [bind] in E2.
+        destruct (add_range s (Some start) (Some end_) depth (add_node cl c1)) as [c'|] eqn:Ea; [|discriminate]. cbn [bind] in E2.
+        destruct (replace_two_way s fuel end_ to (S depth)) as [inner2|] eqn:Ei2; [|discriminate]. cbn [bind] in E2.
+        destruct (close s oe inner2) as [cl2|] eqn:Ec2; [|discriminate]. cbn [bind] in E2. inversion E2; subst.
+        destruct (Hos os eq_refl) as (Hel & Hnl). destruct (Hoe oe eq_refl) as (Hel2 & Hnl2).
+        apply add_node_CL; [eapply close_CN; eauto|].
+        eapply Hmid; [exact Ea|]. apply add_node_CL; auto. eapply close_CN; eauto.
+    - destruct (replace_two_way s fuel from start (S depth)) as [inner|] eqn:Ei; [|discriminate]. cbn [bind] in E2.
+      destruct (close s os inner) as [cl|] eqn:Ec; [|discriminate]. cbn [bind] in E2.
+      destruct (add_range s (Some start) (Some end_) depth (add_node cl c1)) as [c''|] eqn:Ea; [|discriminate]. cbn [bind] in E2.
+      inversion E2; subst. destruct (Hos os eq_refl) as (Hel & Hnl).
+      eapply Hmid; [exact Ea|]. apply add_node_CL; auto. eapply close_CN; eauto.
+    - cbn [bind] in E2.
+      destruct (add_range s (Some start) (Some end_) depth c1) as [c''|] eqn:Ea; [|discriminate]. cbn [bind] in E2.
+      destruct (replace_two_way s fuel end_ to (S depth)) as [inner2|] eqn:Ei2; [|discriminate]. cbn [bind] in E2.
+      destruct (close s oe inner2) as [cl2|] eqn:Ec2; [|discriminate]. cbn [bind] in E2. inversion E2; subst.
+      destruct (Hoe oe eq_refl) as (Hel2 & Hnl2).
+      apply add_node_CL; [eapply close_CN; eauto|]. eapply Hmid; eauto.
+    - cbn [bind] in E2.
+      destruct (add_range s (Some start) (Some end_) depth c1) as [c''|] eqn:Ea; [|discriminate]. cbn [bind] in E2.
+      inversion E2; subst. eapply Hmid; eauto. }
+  eapply add_range_CL; [exact H|exact Hc2| |intros e He; discriminate].
+  intros sp Hsp; inversion Hsp; subst; auto.
+Qed.
+
+(* ------------------------------------------------------------------ lists that differ only inside nodes *)
+(* same place in the text-merging sense: both element nodes, or text nodes with == marks *)
+Definition mclass (x y : node) : Prop :=
+  match x, y with
+  | Text _ m, Text _ m' => marks_eqb m m' = true
+  | Elem _ _ _ _, Elem _ _ _ _ => True
+  | _, _ => False
+  end.
+Lemma mclass_refl x : mclass x x.
+Proof. destruct x; cbn; auto. apply marks_eqb_refl. Qed.
+Lemma seam_class_l x x' z : mclass x' x -> seam x z = seam x' z.
+Proof.
+  destruct x as [t m|]; destruct x' as [t' m'|]; cbn; try contradiction; auto. intros H.
+  destruct z as [tz mz|]; [|reflexivity]. cbn. f_equal.
+  destruct (marks_eqb m mz) eqn:E1; destruct (marks_eqb m' mz) eqn:E2; auto.
+  - rewrite (marks_eqb_trans _ _ _ H E1) in E2. discriminate.
+  - rewrite marks_eqb_sym in H. rewrite (marks_eqb_trans _ _ _ H E2) in E1. discriminate.
+Qed.
+Lemma seam_class_r x x' z : mclass x' x -> seam z x = seam z x'.
+Proof.
+  destruct x as [t m|]; destruct x' as [t' m'|]; cbn; try contradiction; auto; intros H; destruct z as [tz mz|]; try reflexivity.
+  cbn. f_equal.
+  destruct (marks_eqb mz m) eqn:E1; destruct (marks_eqb mz m') eqn:E2; auto.
+  - rewrite marks_eqb_sym in H. rewrite (marks_eqb_trans _ _ _ E1 H) in E2. discriminate.
+  - rewrite (marks_eqb_trans _ _ _ E2 H) in E1. discriminate.
+Qed.
+
+Lemma CL_Forall2 : forall l' l, Forall2 (fun x' x => mclass x' x /\ CN x') l' l -> CL l -> CL l'.
+Proof.
+  induction l' as [|x' l' IH]; intros l HF Hl; [exact CL_nil|].
+  inversion HF as [|a b la lb (Hc & Hcn) HF' E1 E2]; subst.
+  destruct l' as [|y' l'']; [apply CL_single; exact Hcn|].
+  inversion HF' as [|a2 b2 la2 lb2 (Hc2 & Hcn2) HF'' E3 E4]; subst.
+  apply CL_cons2 in Hl. destruct Hl as (_ & Hs & Hr).
+  apply CL_cons2. split; [exact Hcn|]. split; [|eapply IH; eauto].
+  rewrite <- (seam_class_l b x' y' Hc). rewrite <- (seam_class_r b2 y' b Hc2). exact Hs.
+Qed.
+
+Lemma Forall2_refl_CL l : CL l -> Forall2 (fun x' x => mclass x' x /\ CN x') l l.
+Proof.
+  induction l as [|x l IH]; intros H; constructor.
+  - split; [apply mclass_refl|eapply CL_head; eauto].
+  - apply IH. eapply CL_tail; eauto.
+Qed.
+
+Lemma replace_child_CL l i x0 x : CL l -> nth_error l i = Some x0 -> mclass x x0 -> CN x -> CL (replace_child l i x).
+Proof.
+  intros Hl Hn Hc Hx.
+  assert (El : l = firstn i l ++ x0 :: skipn (S i) l) by (rewrite <- (skipn_nth_cons _ _ _ Hn); symmetry; apply firstn_skipn).
+  apply (CL_Forall2 _ (firstn i l ++ x0 :: skipn (S i) l)); [|rewrite <- El; exact Hl]. unfold replace_child. cbn [app].
+  apply Forall2_app; [apply Forall2_refl_CL, CL_firstn; exact Hl|].
+  constructor; [auto|]. apply Forall2_refl_CL, CL_skipn. exact Hl.
+Qed.
+
+(* ------------------------------------------------------------------ Fragment.cut / Node.cut *)
+Definition NodeCutCN (n : node) : Prop :=
+  CN n -> forall a b n', node_cut s n a b = Ok n' -> CN n' /\ mclass n' n.
+
+Lemma CN_size_pos c : CN c -> 1 <= nsize c.
+Proof.
+  destruct c as [t m|ty a m cs]; intros H.
+  - unfold CN in H. cbn in H. destruct t as [|c t]; [discriminate|]. cbn [node_size text_length]. unfold cp_units. destruct (N.leb 65536 c); lia.
+  - rewrite node_size_elem. destruct (is_leaf_ty s ty); lia.
+Qed.
+
+Lemma frag_cut_go_F2 : forall l, (forall c, In c l -> NodeCutCN c) -> CL l ->
+  forall pos from to l', frag_cut_go s l pos from to = Ok l' ->
+  exists j k, Forall2 (fun x' x => mclass x' x /\ CN x') l' (firstn k (skipn j l)) /\ (from <= pos -> j = 0).
+Proof.
+  induction l as [|c r IH]; intros Hcut Hl pos from to l' H; cbn [frag_cut_go] in H.
+  - destruct (pos <? to); [discriminate|]. inversion H; subst. exists 0, 0. split; [constructor|auto].
+  - destruct (pos <? to) eqn:Ept.
+    2:{ inversion H; subst. exists 0, 0. split; [constructor|auto]. }
+    cbv zeta in H. pose proof (CN_size_pos c (CL_head _ _ Hl)) as Hsz.
+    assert (IHr : forall pos from to l', frag_cut_go s r pos from to = Ok l' ->
+              exists j k, Forall2 (fun x' x => mclass x' x /\ CN x') l' (firstn k (skipn j r)) /\ (from <= pos -> j = 0)).
+    { apply IH; [intros c0 Hc0; apply Hcut; right; exact Hc0|eapply CL_tail; eauto]. }
+    destruct (from <? pos + nsize c) eqn:Efe.
+    + apply Nat.ltb_lt in Efe.
+      destruct (_ : res node) as [c'|] eqn:Ec in H; [|discriminate]. cbn [bind] in H.
+      destruct (frag_cut_go s r (pos + nsize c) from to) as [rest|] eqn:Er; [|discriminate]. cbn [bind] in H. inversion H; subst l'.
+      destruct (IHr _ _ _ _ Er) as (j & k & HF & Hj). rewrite (Hj ltac:(lia)) in HF. cbn [skipn] in HF.
+      exists 0, (S k). split; [|auto]. cbn [skipn firstn]. constructor; [|exact HF].
+      destruct ((pos <? from) || (to <? pos + nsize c)).
+      * destruct c as [t m|ty a m cc].
+        -- split; [|eapply text_cut_CN; [exact Ec|eapply CL_head; eauto]].
+           unfold text_cut in Ec. destruct ((from - pos =? 0) && _); [inversion Ec; apply mclass_refl|].
+           destruct (cut_text t _ _) as [x|]; [|discriminate]. cbn [bind] in Ec. destruct x; [discriminate|]. inversion Ec. cbn. apply marks_eqb_refl.
+        -- destruct (Hcut _ (or_introl eq_refl) (CL_head _ _ Hl) _ _ _ Ec) as (H1 & H2). auto.
+      * inversion Ec; subst. split; [apply mclass_refl|eapply CL_head; eauto].
+    + apply Nat.ltb_ge in Efe. destruct (IHr _ _ _ _ H) as (j & k & HF & Hj).
+      exists (S j), k. split; [exact HF|]. intros Hle. lia.
+Qed.
+
+Theorem node_cut_CN : forall n, NodeCutCN n.
+Proof.
+  induction n as [t m|ty a m cs IH] using node_ind2; intros Hn a0 b n' H.
+  - cbn [node_cut] in H. split; [eapply text_cut_CN; eauto|].
+    unfold text_cut in H. destruct ((a0 =? 0) && _); [inversion H; apply mclass_refl|].
+    destruct (cut_text t _ _) as [x|]; [|discriminate]. cbn [bind] in H. destruct x; [discriminate|]. inversion H. cbn. apply marks_eqb_refl.
+  - rewrite node_cut_unfold in H. destruct ((a0 =? 0) && (b =? fsize cs)); [inversion H; subst; split; [exact Hn|exact I]|].
+    pose proof (CN_children _ _ _ _ Hn) as Hcs.
+    unfold CN in Hn. rewrite canon_elem in Hn. apply andb_prop in Hn. destruct Hn as [Hleaf _].
+    destruct (b <=? a0).
+    + inversion H; subst. split; [|exact I]. unfold CN. rewrite canon_elem. destruct (is_leaf_ty s ty); reflexivity.
+    + destruct (frag_cut_go s cs 0 a0 b) as [cs'|] eqn:Ec; [|discriminate]. cbn [bind] in H. inversion H; subst. split; [|exact I].
+      destruct (frag_cut_go_F2 cs IH Hcs _ _ _ _ Ec) as (j & k & HF & _).
+      assert (Hcl : CL cs') by (eapply CL_Forall2; [exact HF|apply CL_firstn, CL_skipn; exact Hcs]).
+      unfold CN. rewrite canon_elem. unfold CL in Hcl. rewrite Hcl, andb_true_r.
+      destruct (is_leaf_ty s ty); [|reflexivity]. destruct cs as [|c0 cs0]; [|discriminate].
+      cbn [skipn firstn] in HF. destruct j, k; cbn in HF; inversion HF; reflexivity.
+Qed.
+
+Lemma frag_cut_CL l from to l' : CL l -> frag_cut s l from to = Ok l' -> CL l'.
+Proof.
+  intros Hl H. unfold frag_cut in H. destruct ((from =? 0) && (to =? fsize l)); [inversion H; subst; exact Hl|].
+  destruct (to <=? from); [inversion H; exact CL_nil|].
+  destruct (frag_cut_go_F2 l (fun c _ => node_cut_CN c) Hl _ _ _ _ H) as (j & k & HF & _).
+  eapply CL_Forall2; [exact HF|apply CL_firstn, CL_skipn; exact Hl].
+Qed.
+
+(* ------------------------------------------------------------------ Fragment.append *)
+Lemma CL_app : forall a b, CL a -> CL b ->
+  (forall x y r, rev a = x :: r -> hd_error b = Some y -> seam x y = true) -> CL (a ++ b).
+Proof.
+  induction a as [|x a IH]; intros b Ha Hb Hs; [exact Hb|]. cbn [app].
+  destruct a as [|y a'].
+  - cbn [app]. destruct b as [|z b']; [exact Ha|]. apply CL_cons2. split; [eapply CL_head; eauto|].
+    split; [apply (Hs x z []); reflexivity|exact Hb].
+  - apply CL_cons2 in Ha. destruct Ha as (Hx & Hxy & Hr). cbn [app]. apply CL_cons2. split; [exact Hx|]. split; [exact Hxy|].
+    apply (IH b Hr Hb). intros x0 y0 r0 Hrev Hhd. apply (Hs x0 y0 (r0 ++ [x])); [|exact Hhd].
+    cbn [rev] in *. rewrite Hrev. reflexivity.
+Qed.
+
+Lemma frag_append_CL a b : CL a -> CL b -> CL (frag_append a b).
+Proof.
+  intros Ha Hb. unfold frag_append. destruct b as [|first b']; [exact Ha|]. destruct a as [|a0 a']; [exact Hb|].
+  set (A := a0 :: a') in *.
+  assert (HlastA : exists r, rev A = last A first :: r).
+  { assert (HA : A <> []) by discriminate. exists (rev (removelast A)).
+    transitivity (rev (removelast A ++ [last A first])); [f_equal; apply last_split; exact HA|rewrite rev_app_distr; reflexivity]. }
+  destruct HlastA as (rA & HrevA).
+  assert (Hplain : seam (last A first) first = true -> CL (A ++ first :: b')).
+  { intros Hs. apply CL_app; auto. intros x y r Hr Hh. rewrite HrevA in Hr. inversion Hr; subst. cbn in Hh. inversion Hh; subst. exact Hs. }
+  destruct (last A first) as [t m|ty a m cs] eqn:El; [|apply Hplain; reflexivity].
+  destruct first as [t' m'|ty' a'' m' cs']; [|apply Hplain; reflexivity].
+  destruct (marks_eqb m m') eqn:Em; [|apply Hplain; cbn; rewrite Em; reflexivity].
+  (* merged *)
+  assert (HA : A = removelast A ++ [Text t m]) by (rewrite <- El; apply last_split; discriminate).
+  assert (Hm : CL (removelast A ++ [Text (t ++ t') m])).
+  { eapply CL_Forall2; [|rewrite HA in Ha; exact Ha]. apply Forall2_app.
+    - apply Forall2_refl_CL. rewrite HA in Ha. clear -Ha. revert Ha. generalize (removelast A) as l. intros l.
+      induction l as [|x l IH]; intros H; [exact CL_nil|]. destruct l as [|y l'].
+      + cbn [app] in H. apply CL_cons2 in H. apply CL_single. tauto.
+      + cbn [app] in H. apply CL_cons2 in H. destruct H as (H1 & H2 & H3). apply CL_cons2. split; [exact H1|]. split; [exact H2|].
+        apply IH. exact H3.
+    - constructor; [|constructor]. split; [cbn; apply marks_eqb_refl|].
+      assert (Hc : CN (Text t m)) by (eapply CL_In; [exact Ha|]; rewrite HA; apply in_or_app; right; left; reflexivity).
+      unfold CN in *. cbn in Hc |- *. destruct t; [discriminate|reflexivity]. }
+  cbn [app]. change (removelast A ++ Text (t ++ t') m :: b') with (removelast A ++ [Text (t ++ t') m] ++ b').
+  rewrite app_assoc. apply CL_app; [exact Hm|eapply CL_tail; exact Hb|].
+  intros x y r Hr Hh. rewrite rev_app_distr in Hr. cbn in Hr. inversion Hr; subst x.
+  destruct b' as [|z b'']; [discriminate|]. cbn in Hh. inversion Hh; subst y.
+  apply CL_cons2 in Hb. destruct Hb as (_ & Hs & _).
+  rewrite (seam_class_l (Text (t ++ t') m) (Text t' m') z); [exact Hs|]. cbn. rewrite marks_eqb_sym. exact Em.
+Qed.
+
+(* ------------------------------------------------------------------ the prepared slice *)
+Record Good (r : rpos) : Prop := { g_c : PathC r; g_t : TextAt r; g_nl : PathNL r; g_l : linked (rp_path r) }.
+
+Lemma resolve_Good doc pos r : CN doc -> nonleaf s doc -> resolve s doc pos = Ok r -> Good r.
+Proof.
+  intros Hc Hnl H. destruct (resolve_spec s _ _ _ H) as (_ & Hl & Ht & (i & o & rest & Hh) & _).
+  split; [eapply resolve_PathC; eauto|exact Ht| |exact Hl].
+  intros d x Hx. destruct (resolve_PathShape s _ _ _ H d x Hx) as (Hel & Hn). split; [exact Hel|].
+  destruct d as [|d]; [|apply Hn; lia]. unfold rp_node, path_at in Hx. rewrite Hh in Hx. cbn in Hx. inversion Hx; subst. exact Hnl.
+Qed.
+
+Lemma wrap_up_CN along : PathNL along -> forall i n w,
+  wrap_up along i n = Ok w -> CN n -> is_elem n -> nonleaf s n -> CN w /\ is_elem w /\ nonleaf s w.
+Proof.
+  intros Hp. induction i as [|i IH]; intros n w H Hn Hel Hnl; cbn [wrap_up] in H.
+  - inversion H; subst. auto.
+  - destruct (rp_node along i) as [a|] eqn:Ea; [|discriminate]. cbn [bind] in H.
+    destruct (Hp _ _ Ea) as ((ty & at_ & m & cs & ->) & Hnla). cbn [node_copy] in H.
+    apply (IH _ _ H).
+    + apply CN_elem; [exact Hnla|apply CL_single; exact Hn].
+    + unfold is_elem. eauto.
+    + exact Hnla.
+Qed.
+
+Lemma prepare_slice_Good sl along st en :
+  prepare_slice s sl along = Ok (st, en) -> PathNL along -> CL (sl_content sl) -> Good st /\ Good en.
+Proof.
+  intros H Hp Hc. unfold prepare_slice in H.
+  destruct (rp_node along (rp_depth along - sl_open_start sl)) as [parent|] eqn:En; [|discriminate]. cbn [bind] in H.
+  destruct (wrap_up along (rp_depth along - sl_open_start sl) (node_copy parent (sl_content sl))) as [w|] eqn:Ew; [|discriminate].
+  cbn [bind] in H. destruct (fsize (node_content w) <? sl_open_end sl + (rp_depth along - sl_open_start sl)); [discriminate|].
+  destruct (resolve s w (sl_open_start sl + (rp_depth along - sl_open_start sl))) as [a|] eqn:Ea; [|discriminate]. cbn [bind] in H.
+  destruct (resolve s w (fsize (node_content w) - sl_open_end sl - (rp_depth along - sl_open_start sl))) as [b|] eqn:Eb;
+    [|discriminate]. cbn [bind] in H. inversion H; subst.
+  destruct (Hp _ _ En) as ((ty & at_ & m & cs & ->) & Hnlp). cbn [node_copy] in Ew.
+  destruct (wrap_up_CN along Hp _ _ _ Ew) as (Hw & Helw & Hnlw).
+  - apply CN_elem; [exact Hnlp|exact Hc].
+  - unfold is_elem; eauto.
+  - exact Hnlp.
+  - split; eapply resolve_Good; eauto.
+Qed.
+
+(* ------------------------------------------------------------------ replace_outer / Node.replace *)
+Lemma replace_outer_CN : forall fuel from to sl depth r,
+  replace_outer s fuel from to sl depth = Ok r ->
+  Good from -> Good to -> CL (sl_content sl) -> CN r /\ is_elem r.
+Proof.
+  induction fuel as [|fuel IH]; intros from to sl depth r H Gf Gt Hc; [discriminate|]. cbn [replace_outer] in H.
+  destruct (rp_index from depth) as [index|] eqn:Ei; [|discriminate]. cbn [bind] in H.
+  destruct (rp_node from depth) as [n|] eqn:En; [|discriminate]. cbn [bind] in H.
+  destruct (rp_index to depth) as [tindex|] eqn:Eti; [|discriminate]. cbn [bind] in H.
+  destruct (g_nl _ Gf _ _ En) as ((ty & a & m & cs & ->) & Hnl).
+  pose proof (PathC_node _ _ _ (g_c _ Gf) En) as Hn.
+  assert (Hclose : forall c r', close s (Elem ty a m cs) c = Ok r' -> CL c -> CN r' /\ is_elem r').
+  { intros c r' Hcl Hcc. eapply close_CN; eauto. unfold is_elem; eauto. }
+  destruct ((index =? tindex) && (depth <? rp_depth from - sl_open_start sl)) eqn:E1.
+  - destruct (replace_outer s fuel from to sl (S depth)) as [inner|] eqn:Eo; [|discriminate]. cbn [bind] in H.
+    inversion H; subst r. cbn [node_copy node_content].
+    destruct (IH _ _ _ _ _ Eo Gf Gt Hc) as (Hin & (ty2 & a2 & m2 & cs2 & ->)).
+    (* the child that is replaced is the next node of the path: an element node *)
+    destruct (replace_outer_markup s _ _ _ _ _ _ Eo) as ((n2 & En2 & _) & _).
+    destruct (rp_node_path _ _ _ En) as (i0 & o0 & Hp0). destruct (rp_index_path _ _ _ Ei) as (n1 & o1 & Hp1).
+    rewrite Hp0 in Hp1. inversion Hp1; subst n1 i0 o1.
+    destruct (rp_node_path _ _ _ En2) as (i2 & o2 & Hp2).
+    pose proof (g_l _ Gf depth _ _ _ _ _ _ Hp0 Hp2) as Hchild. unfold child_at in Hchild. cbn [node_content] in Hchild.
+    destruct (g_nl _ Gf _ _ En2) as ((ty3 & a3 & m3 & cs3 & ->) & _).
+    split; [|unfold is_elem; eauto]. apply CN_elem; [exact Hnl|].
+    eapply replace_child_CL; [eapply CN_children; exact Hn|exact Hchild|exact I|exact Hin].
+  - destruct (fsize (sl_content sl) =? 0).
+    + destruct (replace_two_way s (S (rp_depth from)) from to depth) as [c|] eqn:E2; [|discriminate]. cbn [bind] in H.
+      apply (Hclose _ _ H). eapply two_way_CL; [exact E2|apply Gf|apply Gf|apply Gf|apply Gt|apply Gt].
+    + destruct ((sl_open_start sl =? 0) && (sl_open_end sl =? 0) && (rp_depth from =? depth) && (rp_depth to =? depth)) eqn:E3.
+      * unfold rp_parent in H. destruct (rp_node from (rp_depth from)) as [parent|] eqn:Ep; [|discriminate]. cbn [bind] in H.
+        destruct (frag_cut s (node_content parent) 0 (rp_parent_offset from)) as [a1|] eqn:Ea; [|discriminate]. cbn [bind] in H.
+        destruct (frag_cut s (node_content parent) (rp_parent_offset to) (fsize (node_content parent))) as [b1|] eqn:Eb; [|discriminate].
+        cbn [bind] in H.
+        destruct (g_nl _ Gf _ _ Ep) as ((ty2 & a2 & m2 & cs2 & ->) & Hnl2).
+        pose proof (PathC_node _ _ _ (g_c _ Gf) Ep) as Hpn. pose proof (CN_children _ _ _ _ Hpn) as Hcs2. cbn [node_content] in *.
+        eapply close_CN; [exact H|unfold is_elem; eauto|exact Hnl2|].
+        apply frag_append_CL; [apply frag_append_CL; [eapply frag_cut_CL; eauto|exact Hc]|eapply frag_cut_CL; eauto].
+      * destruct (prepare_slice s sl from) as [[start end_]|] eqn:Eps; [|discriminate]. cbn [bind] in H.
+        destruct (replace_three_way s _ from start end_ to depth) as [c|] eqn:E3w; [|discriminate]. cbn [bind] in H.
+        destruct (prepare_slice_Good _ _ _ _ Eps (g_nl _ Gf) Hc) as (Gs & Ge).
+        apply (Hclose _ _ H).
+        eapply three_way_CL; [exact E3w|apply Gf|apply Gf|apply Gf|apply Gs|apply Gs|apply Gs|apply Ge|apply Ge|apply Ge|apply Gt|apply Gt].
+Qed.
+
+Theorem node_replace_canon doc from to sl d' :
+  CN doc -> nonleaf s doc -> CL (sl_content sl) -> node_replace s doc from to sl = Ok d' -> CN d'.
+Proof.
+  intros Hd Hnl Hc H. unfold node_replace in H.
+  destruct (resolve s doc from) as [rf|] eqn:Ef; [|discriminate]. cbn [bind] in H.
+  destruct (resolve s doc to) as [rt|] eqn:Et; [|discriminate]. cbn [bind] in H.
+  unfold replace_rp in H. destruct (rp_depth rf <? sl_open_start sl); [discriminate|].
+  destruct (negb _); [discriminate|].
+  eapply replace_outer_CN; [exact H|eapply resolve_Good; eauto|eapply resolve_Good; eauto|exact Hc].
 Qed.
 
 End WithSchema.
